@@ -1267,3 +1267,68 @@ class StartUnit(SpawnMixin, TGUnit):
 
 
 UNITS += [CreateTaskUnit, StartedUnit, StartUnit]
+
+
+# ---- abc.TaskGroup.start_soon: the public entry point delegates to create_task ----------------------------------------
+
+register_class("TaskGroupABC", {}, source=("anyio/abc/_tasks.py", "TaskGroup"))
+
+
+class StartSoonUnit(MethodUnit):
+    """TaskGroup.start_soon(func, *args, name=) == create_task(call_for_coroutine(func, args), name=<callable name>):
+    exactly one create_task call, for the coroutine made from the caller's function and arguments, its handle returned,
+    its refusal (group not active) passed on"""
+
+    props = ("C01",)
+    spec = ClassSpec("TaskGroupABC")
+    method = "start_soon"
+    contract = None
+    trusted = ("E1",)
+
+    def props_of(self, name):
+        return {"C01"}
+
+    def __init__(self):
+        super().__init__()
+        unit = self
+        self.globals = {
+            "get_callable_name": Builtin("get_callable_name", lambda ip, func, name: ("name_of", func, name)),
+            "call_for_coroutine": Builtin("call_for_coroutine", lambda ip, func, args, **kw: ("coro_of", func, args, kw)),
+        }
+
+    def override_method(self, ip, obj, attr):
+        if isinstance(obj, Sym) and obj.ty is RefT("TaskGroupABC") and attr == "create_task":
+            def create_task(ip, coro, **kw):
+                self.created.append((coro, kw))
+                if ip.ctx.decide(2, "create_task-refuses") == 1:
+                    self.refusal = ExcVal(RuntimeError, ())
+                    raise PyExc(self.refusal)
+                self.handle = Sym(ip.st.fresh("handle", z3.IntSort()), OBJ)
+                return self.handle
+
+            return Builtin("TaskGroup.create_task", create_task)
+        return NotImplemented
+
+    def make_args(self, ip):
+        self.created, self.refusal, self.handle = [], None, None
+        self.func, self.a0 = Sym(z3.Int("func"), OBJ), Sym(z3.Int("arg0"), OBJ)
+        return [self.func, self.a0], types.SimpleNamespace()
+
+    def make_kwargs(self, ip):
+        self.name_arg = Sym(z3.Int("name"), OBJ)
+        return {"name": self.name_arg}
+
+    def on_exit(self, ip, pre, a, exc, ret):
+        nm = "TaskGroup.start_soon"
+        ok = len(self.created) == 1
+        if ok:
+            coro, kw = self.created[0]
+            ok = isinstance(coro, tuple) and coro[0] == "coro_of" and coro[1] is self.func and isinstance(coro[2], tuple) and len(coro[2]) == 1 and coro[2][0] is self.a0 and not coro[3] and set(kw) == {"name"} and isinstance(kw["name"], tuple) and kw["name"][1] is self.func and kw["name"][2] is self.name_arg
+        ip.ctx.oblige(f"{nm}/post:exactly_one_create_task_for_the_coroutine_of_the_callers_function_and_arguments", z3.BoolVal(bool(ok)), "post")
+        if exc is None:
+            ip.ctx.oblige(f"{nm}/post:returns_the_handle_create_task_returned", z3.BoolVal(ret is self.handle and self.handle is not None), "post")
+        else:
+            ip.ctx.oblige(f"{nm}/post:raises_only_what_create_task_raised", z3.BoolVal(exc is self.refusal), "post")
+
+
+UNITS += [StartSoonUnit]
